@@ -112,7 +112,9 @@ undirected network, `per_component_loop_eq_per_node` — the flag is a cross-che
 Round 5d: the flag `csolves` — the Gauss–Jordan grounded inverse of every component with at least
 two nodes satisfies `SolvesL` / `SolvesR` exactly (the only hypotheses of
 `nsi_newman_wrapped_split_checked`; the Arenas wrapper needs none, its solves are verified inside
-`arenasAll`). -/
+`arenasAll`).  Round 5e: the flag is true by theorem wherever the loop returns an array
+(`newman_tof_solves`, `Lemmas/NsiGJ.lean`: C18's Gauss–Jordan returns a two-sided inverse whenever
+it returns); `nsi_newman_wrapped_split_unconditional` does not use it — a cross-check only. -/
 def compAll (G : Gr) : String :=
   let idx := List.range G.n
   let opt (o : Option (List Rat)) : String := match o with | some l => showRats l | none => "singular"
